@@ -1647,29 +1647,29 @@ std::ostream& expression_t::print(std::ostream& os, bool old) const
         get(1).print(os, old);
         break;
 
-    case MITL_FORMULA:
-        os << "MITL: ";
+    case MITL_FORMULA:  // Pr <MITL expression>
+        os << "Pr ";
         get(0).print(os, old);
         break;
     case MITL_RELEASE:
-    case MITL_UNTIL:
-        get(0).print(os, old) << "U[";
-        get(1).print(os, old) << ";";
-        get(2).print(os, old) << "]";
-        get(3).print(os, old);
+    case MITL_UNTIL:  // (p U[low,high] q); <>[l,h] q and [][l,h] q are stored as (1 U[l,h] q) and (0 R[l,h] q)
+        get(0).print(os << '(', old) << (data->kind == MITL_UNTIL ? " U[" : " R[");
+        get(1).print(os, old) << ",";
+        get(2).print(os, old) << "] ";
+        get(3).print(os, old) << ')';
         break;
 
     case MITL_DISJ:
-        get(0).print(os, old) << "\\/";
+        get(0).print(os, old) << " || ";
         get(1).print(os, old);
         break;
     case MITL_CONJ:
-        get(0).print(os, old) << "/\\";
+        get(0).print(os, old) << " && ";
         get(1).print(os, old);
         break;
-    case MITL_ATOM: get(0).print(os, old); break;
+    case MITL_ATOM: embrace(os, old, get(0), get_precedence(ARRAY) - 1); break;
     case MITL_NEXT:
-        os << "X(";
+        os << "(X ";
         get(0).print(os, old) << ")";
         break;
     case SPAWN: os << "SPAWN"; break;
